@@ -592,6 +592,66 @@ func protoOps() []ptop {
 			}
 			return cls
 		}},
+		{"proto.Value.Field/Index/GetByStr/GetByInt(chained)", func(sd *pseed, in []byte) string {
+			// the single-step lookups chained by hand, every node on the way and - for lists - every element the
+			// node announces (at most 8) cast through Interface
+			d, err := protoDesc("")
+			if err != nil {
+				return "harness-idl"
+			}
+			root := pgeneric.NewRootValue(d, in)
+			cls := "ok"
+			cast := func(c pgeneric.Value) {
+				if c.IsError() {
+					cls = "error"
+					return
+				}
+				x, err := c.Interface(&o0)
+				obs(x)
+				if err != nil {
+					cls = "error"
+				}
+				obs(c.Raw())
+			}
+			elems := func(c pgeneric.Value) {
+				if c.IsError() || c.Type() != dproto.LIST {
+					return
+				}
+				ln, err := c.Len()
+				if err != nil {
+					cls = "error"
+					return
+				}
+				for i := 0; i < ln && i < 8; i++ {
+					cast(c.Index(i))
+				}
+			}
+			for _, p := range sd.path {
+				cur := root
+				for _, st := range p {
+					switch st.Type() {
+					case pgeneric.PathFieldId:
+						cur = cur.Field(st.Id())
+					case pgeneric.PathFieldName:
+						cur = cur.FieldByName(st.Str())
+					case pgeneric.PathIndex:
+						cur = cur.Index(st.Int())
+					case pgeneric.PathStrKey:
+						cur = cur.GetByStr(st.Str())
+					case pgeneric.PathIntKey:
+						cur = cur.GetByInt(st.Int())
+					default:
+						cur = cur.GetByPath(st)
+					}
+					if cur.IsError() {
+						break
+					}
+					elems(cur)
+				}
+				cast(cur)
+			}
+			return cls
+		}},
 		{"proto.Value.Interface", func(sd *pseed, in []byte) string {
 			d, err := protoDesc("")
 			if err != nil {
